@@ -16,6 +16,7 @@ structure St where
   thr : Std.HashMap (String × Nat) Thresholds := {}
   series : Std.HashMap (String × String) (Array (Nat × Measured)) := {}
   keys : Array (String × String) := #[]
+  noGrowth : Array String := #[]
   mode : Nat := 0
   id : String := ""
   lang : String := ""
@@ -56,6 +57,7 @@ def runCase (s : St) : String × Option Measured :=
 def growthLines (s : St) : Array String := Id.run do
   let mut out := #[]
   for key in s.keys do
+    if s.noGrowth.contains key.1 then continue
     let ser := ((s.series.get? key).getD #[]).qsort (fun a b => a.1 < b.1)
     if ser.size < 2 then
       out := out.push s!"growth-{key.1}-{key.2} judge=FAIL fewer than two sizes measured"
@@ -81,6 +83,7 @@ def step (s : St) (line : String) : IO St := do
     match line.splitOn " " with
     | ["thr", lang, size, a, b, c, d] =>
       return { s with thr := s.thr.insert (lang, natOf size) { lexed := natOf a, bytes := natOf b, fresh := natOf c, freshVis := natOf d } }
+    | ["nogrowth", lang] => return { s with noGrowth := s.noGrowth.push lang }
     | ["case", id] => return { s with id := id, before := #[], edited := #[], new := #[], meas := {} }
     | ["lang", l] => return { s with lang := l }
     | ["size", n] => return { s with size := natOf n }
